@@ -8,7 +8,7 @@ PATCH="$(readlink -f "$1")"; shift
 IDS="${*:-C01 C04 C05 C07 C09 C10 C11 C12 C13 C14 C15 C17}"
 SCR="$(mktemp -d /tmp/seeded.XXXXXX)"
 mkdir -p "$SCR/sim"
-ln -s /verif/sim/target-repo "$SCR/sim/target-repo" 2>/dev/null
+
 cp /verif/known_findings.json "$SCR/" 2>/dev/null
 cd /repo || exit 2
 if ! git diff --quiet; then echo "/repo has uncommitted changes" >&2; exit 2; fi
